@@ -4,6 +4,7 @@ Import ListNotations.
 From GS Require Import Num NumR EventLoop Kernel Sim.
 From GS Require Import NumZ Sim ExampleKit.
 From GS.Proofs Require Import Aux SimP SimP3 SimR.
+From GS.Proofs Require Import TraceSpec TraceSpecQ MoveSpec SchedSpec.
 
 Section C09.
 Context {F : Type} (A : ArithOps F) {PS : Type} (cfg : scfg F)
@@ -41,6 +42,33 @@ Theorem C09_range_affects_own_transmissions_only (h : sstate F PS) n r y d :
   y <> n -> in_range A (set_range h (upd n r (s_range h))) y d = in_range A h y d.
 Proof. apply in_range_other_range. Qed.
 
+(** WHOLE RUNS.  The acceptor [x_next] / [x_ok] (Proofs/SchedSpec.v) replays from the trace alone the positions
+    (initial ones, then one [step1] per node at every executed update), targets and speeds (accepted gotos /
+    set-speeds), the per-node ranges (accepted set-range requests), the number of draws and the timer counter, and
+    from them computes what each visible item asks the event loop to schedule: for an accepted unicast or
+    broadcast, one delivery per addressee that is within the SENDER's range at the positions OF THAT MOMENT
+    (and whose draw passes), due at send time (+ delay) -- see [x_transmit].  The scheduling items that follow
+    (accepted or refused) must be exactly these, in order, all of them before the next event is executed.  Every
+    run from build() -- any protocol, bounds, fuel -- is accepted, and the replayed state is the simulator's own.
+    So a delivery exists iff it was in range at the send instant; what happens to the positions during the delay
+    cannot matter (the delivery event is already queued); a range change affects only the sender's later copies. *)
+Theorem C09_whole_run_scheduling_justified (c : kcfg F) fuel ps0 :
+  let '(s0, i0) := sim_start A cfg ps0 in
+  let '(s', items, fin) := k_run A (sim_hooks A cfg react) c fuel s0 in
+  accept (x_next A cfg) x_ok (x0 A cfg) (i0 ++ items) /\
+  after (x_next A cfg) (x0 A cfg) (i0 ++ items) = x_abs (el_now (k_el s')) (k_h s').
+Proof. exact (whole_run_scheduled A cfg react c fuel ps0). Qed.
+
+(** what one copy asks for, read off the acceptor *)
+Theorem C09_copy_owed_iff_in_range_now (x : xst) src dst msg :
+  x_owed (x_transmit A cfg x src dst msg) =
+  x_owed x ++
+  (if (if fltb A (f0 A) (c_fail cfg) then fltb A (c_fail cfg) (nth (x_cur x) (c_stream cfg) (f0 A)) else true) &&
+      fleb A (sqdist A (nth src (x_pos x) (zero3 A)) (nth dst (x_pos x) (zero3 A))) (fsq A (nth src (x_range x) (f0 A)))
+   then [(if fleb A (c_delay cfg) (f0 A) then x_now x else fadd A (x_now x) (c_delay cfg), EvDeliver src dst msg)]
+   else []).
+Proof. reflexivity. Qed.
+
 End C09.
 
 (** Over the reals the squared comparison made by the code IS the Euclidean condition
@@ -63,3 +91,5 @@ Print Assumptions C09_delivery_ignores_positions.
 Print Assumptions C09_set_range.
 Print Assumptions C09_range_affects_own_transmissions_only.
 Print Assumptions C09_gate_is_euclidean.
+Print Assumptions C09_whole_run_scheduling_justified.
+Print Assumptions C09_copy_owed_iff_in_range_now.
